@@ -66,6 +66,10 @@ pub struct Workload {
     /// registered under the *same* predicate hash (the first predicate's).
     #[serde(default)]
     pub alias_pred_hash: bool,
+    /// (index into `programs`, other bytes): the program store answers every second lookup of
+    /// that program's address with the other bytes (totality only: no model covers this)
+    #[serde(default)]
+    pub flaky_program: Option<(usize, Vec<u8>)>,
 }
 
 pub struct Mat {
@@ -167,7 +171,16 @@ impl Workload {
                 .collect(),
         };
         Mat {
-            programs: SimPrograms(Arc::new(programs)),
+            programs: SimPrograms(
+                Arc::new(programs),
+                self.flaky_program.as_ref().and_then(|(i, bytes)| {
+                    Some(Arc::new(crate::store::FlakyProgram {
+                        addr: prog_addrs.get(*i)?.clone(),
+                        alt: Arc::new(Program(bytes.clone())),
+                        lookups: std::sync::atomic::AtomicU64::new(0),
+                    }))
+                }),
+            ),
             predicates: SimPredicates(Arc::new(predicates)),
             set,
             state: SimState::new(self.state_map(), self.faults.clone()),
